@@ -290,7 +290,8 @@ func (s *httpServer) doMPUB(w http.ResponseWriter, req *http.Request, ps httprou
 	}
 	if binaryMode {
 		tmp := make([]byte, 4)
-		msgs, err = readMPUB(req.Body, tmp, topic,
+		// a chunked body has no Content-Length for the test above: bound what is read
+		msgs, err = readMPUB(io.LimitReader(req.Body, s.nsqd.getOpts().MaxBodySize), tmp, topic,
 			s.nsqd.getOpts().MaxMsgSize, s.nsqd.getOpts().MaxBodySize)
 		if err != nil {
 			return nil, http_api.Err{413, err.(*protocol.FatalClientErr).Code[2:]}
